@@ -1,14 +1,16 @@
 /-
-  Model of /repo/query_executor.go (`queryExecutor.do`, `executeQuery`, `speculate`, `run`) and of the
-  built-in retry policies' decision functions in /repo/policies.go.
+  Model of /repo/query_executor.go (`queryExecutor.do`, `executeQuery`, `speculate`, `run`), of the attempt
+  accounting of the two statement kinds that implement `ExecutableQuery` (`Query.attempt`, `Batch.attempt`,
+  `queryMetrics.attempt` in /repo/session.go) and of the built-in retry policies' decision functions in
+  /repo/policies.go.
 -/
 namespace Executor
 
 /-- a host as offered by the host iterator, with what `do` looks at -/
 structure Host where
   id : Nat
-  up : Bool          -- host.IsUp()
-  conn : Bool        -- the pool exists and Pick() returns a connection
+  up : Bool          -- the SelectedHost carries a HostInfo and host.IsUp()
+  conn : Bool        -- the pool exists (`getPool`) and Pick() returns a connection
 deriving DecidableEq, Repr
 
 /-- result of one attempt (`iter.err` classes) -/
@@ -22,11 +24,45 @@ inductive RT where
   | retry | rethrow | ignore | nextHost | unknown
 deriving DecidableEq, Repr
 
+/-- the two implementations of `ExecutableQuery` (and the three batch types, which share all executor code) -/
+inductive Kind where
+  | query | batchLogged | batchUnlogged | batchCounter
+deriving DecidableEq, Repr
+
+/-- what the executor is handed: the statement kind and whether an observer (QueryObserver / BatchObserver,
+    from the session or set on the statement) is attached to it -/
+structure Req where
+  kind : Kind
+  observed : Bool
+deriving DecidableEq, Repr
+
+/-- `qry.attempt(keyspace, end, start, iter, host)` as far as the attempt counter goes: `Query.attempt`
+    (session.go) and `Batch.attempt` (session.go) both start with
+    `metrics.attempt(1, latency, host, observer != nil)`, i.e. `totalAttempts += 1`, whether or not an
+    observer is attached; only the observer call-back depends on `observed`. The value returned is the new
+    `Attempts()`. -/
+def Req.record (r : Req) (cnt : Nat) : Nat :=
+  match r.kind, r.observed with
+  | .query, _ => cnt + 1
+  | _, true => cnt + 1
+  | _, false => cnt + 1
+
 /-- a retry policy: `attempt n` = `rt.Attempt(qry)` when `qry.Attempts() = n` (attempts made so far),
-    `rtype k` = `rt.GetRetryType(err)` for an error of kind `k` -/
+    `newCons n` = the consistency `Attempt` sets on the statement when it answers `true` with
+    `qry.Attempts() = n` (only DowngradingConsistencyRetryPolicy does), `rtype k` = `rt.GetRetryType(err)`
+    for an error of kind `k` -/
 structure Policy where
   attempt : Nat → Bool
+  newCons : Nat → Option Nat := fun _ => none
   rtype : Nat → RT
+
+/-- one attempt as the statement's observer and the server see it -/
+structure Att where
+  host : Nat       -- host id
+  idx : Nat        -- `Attempts()` before this attempt (= ObservedQuery.Attempt / ObservedBatch.Attempt)
+  cons : Nat       -- consistency level the request carried
+  res : Res
+deriving DecidableEq, Repr
 
 inductive Final where
   | last (r : Res)         -- the iter of the last attempt is returned
@@ -37,9 +73,14 @@ inductive Final where
 deriving DecidableEq, Repr
 
 structure Out where
-  attempts : List Nat      -- host ids, one per attempt, in order
+  attempts : List Att      -- one per attempt, in order
   final : Final
+  cnt : Nat                -- `Attempts()` of the statement afterwards
+  cons : Nat               -- `GetConsistency()` of the statement afterwards
 deriving DecidableEq, Repr
+
+/-- the attempt `a` came before what `o` describes -/
+def Out.push (o : Out) (a : Att) : Out := { o with attempts := a :: o.attempts }
 
 /-- next usable host from the iterator: down hosts and hosts without a connection are skipped
     (without consuming retry budget); returns the host and the remaining sequence -/
@@ -47,42 +88,66 @@ def nextUsable : List Host → Option (Host × List Host)
   | [] => none
   | h :: hs => if h.up && h.conn then some (h, hs) else nextUsable hs
 
-/-- `queryExecutor.do`. `outcome k` is the result of the k-th attempt overall (0-based), `n0` the value of
-    `qry.Attempts()` when `do` starts. `cur` = currently selected host (already known usable), `rest` = what
-    the iterator will still offer. -/
-def doLoop (pol : Option Policy) (outcome : Nat → Res) :
-    Nat → Option Host → List Host → Nat → Option Nat → List Nat → Out
-  | 0, _, _, _, _, tr => ⟨tr.reverse, .outOfFuel⟩
-  | fuel+1, none, _, _, lastErr, tr =>
+/-- `queryExecutor.do`. `outcome k` is the result of the k-th request that reaches a server (0-based, counted
+    over the life of the scenario), `cnt` the statement's attempt counter (`qry.Attempts()`, the state the
+    retry policies read), `cons` its consistency level. `cur` = currently selected host (already known
+    usable), `rest` = what the iterator will still offer, `lastErr` = the error of the previous attempt. -/
+def doLoop (req : Req) (pol : Option Policy) (outcome : Nat → Res) :
+    Nat → Option Host → List Host → Nat → Nat → Nat → Option Nat → Out
+  | 0, _, _, _, cnt, cons, _ => ⟨[], .outOfFuel, cnt, cons⟩
+  | _+1, none, _, _, cnt, cons, lastErr =>
       match lastErr with
-      | some k => ⟨tr.reverse, .lastErr k⟩
-      | none => ⟨tr.reverse, .noConnections⟩
-  | fuel+1, some h, rest, n, lastErr, tr =>
-      let r := outcome n
-      let tr' := h.id :: tr
+      | some k => ⟨[], .lastErr k, cnt, cons⟩
+      | none => ⟨[], .noConnections, cnt, cons⟩
+  | fuel+1, some h, rest, k, cnt, cons, _ =>
+      let r := outcome k
+      let a : Att := ⟨h.id, cnt, cons, r⟩
+      let cnt' := req.record cnt
       match r with
-      | .logical => ⟨tr'.reverse, .last r⟩
-      | .ok => ⟨tr'.reverse, .last r⟩
-      | .err k =>
+      | .logical => ⟨[a], .last r, cnt', cons⟩
+      | .ok => ⟨[a], .last r, cnt', cons⟩
+      | .err e =>
         match pol with
-        | none => ⟨tr'.reverse, .last r⟩
+        | none => ⟨[a], .last r, cnt', cons⟩
         | some p =>
-          if !p.attempt (n+1) then ⟨tr'.reverse, .last r⟩
-          else match p.rtype k with
-            | .retry => doLoop pol outcome fuel (some h) rest (n+1) (some k) tr'
-            | .rethrow => ⟨tr'.reverse, .last r⟩
-            | .ignore => ⟨tr'.reverse, .last r⟩
+          if !p.attempt cnt' then ⟨[a], .last r, cnt', cons⟩
+          else
+            let cons' := (p.newCons cnt').getD cons
+            match p.rtype e with
+            | .retry => (doLoop req pol outcome fuel (some h) rest (k+1) cnt' cons' (some e)).push a
+            | .rethrow => ⟨[a], .last r, cnt', cons'⟩
+            | .ignore => ⟨[a], .last r, cnt', cons'⟩
             | .nextHost =>
                 match nextUsable rest with
-                | some (h', rest') => doLoop pol outcome fuel (some h') rest' (n+1) (some k) tr'
-                | none => doLoop pol outcome fuel none [] (n+1) (some k) tr'
-            | .unknown => ⟨tr'.reverse, .unknownRetryType⟩
+                | some (h', rest') => (doLoop req pol outcome fuel (some h') rest' (k+1) cnt' cons' (some e)).push a
+                | none => (doLoop req pol outcome fuel none [] (k+1) cnt' cons' (some e)).push a
+            | .unknown => ⟨[a], .unknownRetryType, cnt', cons'⟩
 
 /-- `do` from the start: select the first usable host -/
-def doQuery (pol : Option Policy) (outcome : Nat → Res) (fuel : Nat) (hosts : List Host) (n0 : Nat) : Out :=
+def doQuery (req : Req) (pol : Option Policy) (outcome : Nat → Res) (fuel : Nat) (hosts : List Host)
+    (k cnt cons : Nat) : Out :=
   match nextUsable hosts with
-  | some (h, rest) => doLoop pol outcome fuel (some h) rest n0 none []
-  | none => doLoop pol outcome fuel none [] n0 none []
+  | some (h, rest) => doLoop req pol outcome fuel (some h) rest k cnt cons none
+  | none => doLoop req pol outcome fuel none [] k cnt cons none
+
+/-- one execution of a statement through `Session.executeQuery` / `Session.executeBatch`, including the case of
+    a context that is already done when the execution starts: `Conn.exec` then returns `ctx.Err()` before
+    anything is written, but `qry.attempt` has still been called (the counter moves, the server sees nothing). -/
+structure Run where
+  out : Out
+  sent : List Att          -- the attempts that reached a server, in order
+  ctxDone : Bool           -- the statement's context is done afterwards
+deriving DecidableEq, Repr
+
+def execute (req : Req) (pol : Option Policy) (outcome : Nat → Res) (fuel : Nat) (hosts : List Host)
+    (k cnt cons : Nat) (ctxDone : Bool) : Run :=
+  if ctxDone then
+    match nextUsable hosts with
+    | some (h, _) => ⟨⟨[⟨h.id, cnt, cons, .logical⟩], .last .logical, req.record cnt, cons⟩, [], true⟩
+    | none => ⟨⟨[], .noConnections, cnt, cons⟩, [], true⟩
+  else
+    let out := doQuery req pol outcome fuel hosts k cnt cons
+    ⟨out, out.attempts, decide (out.final = .last .logical)⟩
 
 /-! ### built-in policies (policies.go) -/
 
@@ -103,19 +168,43 @@ def kWriteTOOther : Nat := 6          -- RequestErrWriteTimeout other write type
 def kReadTO : Nat := 7                -- RequestErrReadTimeout
 -- every other kind: RetryNextHost
 
+def downgradingRType (k : Nat) : RT :=
+  if k = kUnavailableAlive then .retry else if k = kUnavailableNone then .rethrow
+  else if k = kWriteTOSimpleRecv then .ignore else if k = kWriteTOSimpleNone then .rethrow
+  else if k = kWriteTOUnlogged then .retry else if k = kWriteTOOther then .rethrow
+  else if k = kReadTO then .retry else .nextHost
+
+/-- DowngradingConsistencyRetryPolicy{ConsistencyLevelsToTry: levels}: `Attempt` answers
+    `Attempts() ≤ len(levels)` and, when it answers true with `Attempts() = n > 0`, sets the statement's
+    consistency to `levels[n-1]` -/
+def downgradingPolicyL (levels : List Nat) : Policy :=
+  { attempt := fun n => decide (n ≤ levels.length),
+    newCons := fun n => if n = 0 then none else levels[n - 1]?,
+    rtype := downgradingRType }
+
+/-- the same with only the number of levels known (the decisions do not depend on the level values) -/
 def downgradingPolicy (levels : Nat) : Policy :=
-  { attempt := fun n => decide (n ≤ levels),
-    rtype := fun k =>
-      if k = kUnavailableAlive then .retry else if k = kUnavailableNone then .rethrow
-      else if k = kWriteTOSimpleRecv then .ignore else if k = kWriteTOSimpleNone then .rethrow
-      else if k = kWriteTOUnlogged then .retry else if k = kWriteTOOther then .rethrow
-      else if k = kReadTO then .retry else .nextHost }
+  { attempt := fun n => decide (n ≤ levels), rtype := downgradingRType }
+
+/-! ### which policy / observer a statement carries (session.go: `Session.Query`, `Session.NewBatch`, the
+    deprecated package-level `NewBatch`) -/
+
+/-- a setting given at statement level (`some x`; `x = none` is an explicit `RetryPolicy(nil)` / `Observer(nil)`)
+    wins; otherwise the session's default applies — unless the statement was made by the deprecated
+    package-level `NewBatch`, which copies no session defaults -/
+def effective {α : Type} (fromSession : Bool) (sessionLevel : Option α) (statementLevel : Option (Option α)) :
+    Option α :=
+  match statementLevel with
+  | some x => x
+  | none => if fromSession then sessionLevel else none
 
 /-! ### executeQuery: which executions are started -/
 
 /-- number of executions (`go q.run`) `executeQuery` may start: one, plus up to `spAttempts` speculative
-    ones — but only for an idempotent query -/
+    ones — but only for an idempotent statement (a batch is idempotent iff every entry is) -/
 def maxExecutions (idempotent : Bool) (spAttempts : Nat) : Nat :=
   if !idempotent || spAttempts == 0 then 1 else 1 + spAttempts
+
+def batchIdempotent (entries : List Bool) : Bool := entries.all id
 
 end Executor
